@@ -422,6 +422,97 @@ fn execute(line: &str) -> Result<String, String> {
             };
             hex(&do_fmt(flags, w, p, pdec(arg(4)?)?)?)
         }
+        "debugf" => {
+            // Debug with format flags (and inside containers, which forward the flags to the elements)
+            let d = pdec(arg(2)?)?;
+            let s = match arg(1)? {
+                "p1" => format!("{:.1?}", d),
+                "p0" => format!("{:.0?}", d),
+                "p30" => format!("{:.30?}", d),
+                "w20" => format!("{:20?}", d),
+                "plus" => format!("{:+?}", d),
+                "alt" => format!("{:#?}", d),
+                "zw" => format!("{:012.3?}", d),
+                "vec1" => format!("{:.1?}", vec![d]),
+                "opt2" => format!("{:+.2?}", Some(d)),
+                "tup" => format!("{:8.0?}", (d, 1_u8)),
+                k => return Err(format!("unknown debugf kind {}", k)),
+            };
+            hex(&s)
+        }
+        "fmtpanic" => {
+            // format into a sink that PANICS once `cap` bytes are exceeded; the panic is caught by run_line. A
+            // perturbation: whatever the unwinding leaves behind must not leak into later calls
+            use std::fmt::Write as _;
+            struct Bomb {
+                n: usize,
+                cap: usize,
+            }
+            impl std::fmt::Write for Bomb {
+                fn write_str(&mut self, s: &str) -> std::fmt::Result {
+                    self.n += s.len();
+                    if self.n > self.cap {
+                        panic!("sink exploded");
+                    }
+                    Ok(())
+                }
+            }
+            let cap = usize::from_str(arg(1)?).map_err(|e| e.to_string())?;
+            let p = match arg(2)? {
+                "-" => None,
+                t => Some(usize::from_str(t).map_err(|e| e.to_string())?),
+            };
+            let d = pdec(arg(3)?)?;
+            let mut sink = Bomb { n: 0, cap };
+            let r = match p {
+                None => write!(sink, "{}", d),
+                Some(p) => write!(sink, "{:+.p$}", d, p = p),
+            };
+            format!("W {} {}", sink.n, if r.is_ok() { "ok" } else { "err" })
+        }
+        "setspin" => {
+            // setspin <n>: n calls of set_default cycling through the seven non-default modes; after every 2^k-th
+            // call (and the last few) default() must return the mode just set. Finds bookkeeping that wraps.
+            let n = u64::from_str(arg(1)?).map_err(|e| e.to_string())?;
+            let modes = [
+                RoundingMode::Round05Up,
+                RoundingMode::RoundCeiling,
+                RoundingMode::RoundDown,
+                RoundingMode::RoundFloor,
+                RoundingMode::RoundHalfDown,
+                RoundingMode::RoundHalfUp,
+                RoundingMode::RoundUp,
+            ];
+            let before = RoundingMode::default();
+            let mut bad = 0_u64;
+            let mut first = 0_u64;
+            for i in 0..n {
+                let m = modes[(i % 7) as usize];
+                RoundingMode::set_default(m);
+                if (i & (i + 1)) == 0 || i + 8 > n || (i & 0xffff) == 0xffff {
+                    let got = RoundingMode::default();
+                    // one value per mode whose rounding differs from what RoundHalfEven would give
+                    let (c, want) = match m {
+                        RoundingMode::Round05Up => (5, 1),
+                        RoundingMode::RoundCeiling => (25, 3),
+                        RoundingMode::RoundDown => (26, 2),
+                        RoundingMode::RoundFloor => (26, 2),
+                        RoundingMode::RoundHalfDown => (35, 3),
+                        RoundingMode::RoundHalfUp => (25, 3),
+                        _ => (21, 3),
+                    };
+                    let r = Decimal::new_raw(c, 1).round(0);
+                    if got != m || r.coefficient() != want {
+                        if bad == 0 {
+                            first = i + 1;
+                        }
+                        bad += 1;
+                    }
+                }
+            }
+            RoundingMode::set_default(before);
+            format!("S {} {}", bad, first)
+        }
         "fmtfail" => {
             // format into a sink that fails once `cap` bytes are exceeded (a fixed-capacity buffer): a perturbation -
             // whatever a failed write leaves behind must not leak into later calls
@@ -735,6 +826,30 @@ mod full {
                         Err(_) => "E de".to_string(),
                     }
                 )
+            }
+            "serdefail" => {
+                // serialise into a writer that fails after `cap` bytes: a perturbation (see fmtfail)
+                struct FailWriter {
+                    n: usize,
+                    cap: usize,
+                }
+                impl std::io::Write for FailWriter {
+                    fn write(&mut self, buf: &[u8]) -> std::io::Result<usize> {
+                        if self.n + buf.len() > self.cap {
+                            return Err(std::io::Error::new(std::io::ErrorKind::Other, "disk full"));
+                        }
+                        self.n += buf.len();
+                        Ok(buf.len())
+                    }
+                    fn flush(&mut self) -> std::io::Result<()> {
+                        Ok(())
+                    }
+                }
+                let cap = usize::from_str(arg(1)?).map_err(|e| e.to_string())?;
+                let d = pdec(arg(2)?)?;
+                let mut w = FailWriter { n: 0, cap };
+                let r = serde_json::to_writer(&mut w, &d);
+                format!("W {} {}", w.n, if r.is_ok() { "ok" } else { "err" })
             }
             "serde_de" => {
                 let s = unhex(arg(1)?)?;
